@@ -25,6 +25,9 @@
 #include "mock_gomp.h"
 #endif
 
+#if PERIODIC
+#include "algorithms/periodic/tbfalgorithmperiodictoptreetsm.hpp"
+#endif
 #include "reckernel.hpp"
 
 #ifndef DIM
@@ -39,7 +42,7 @@ constexpr long int Dim = DIM;
 using Config = TbfSpacialConfiguration<RealType, Dim>;
 using SpaceIndex = TbfMortonSpaceIndex<Dim, Config, (PERIODIC != 0)>;
 using Kernel = RecKernel<RealType, SpaceIndex>;
-using Tree = TbfTreeTsm<RealType, RealType, Dim, uint16_t, NSLOT, Cnt, Cnt, SpaceIndex>;
+using Tree = TbfTreeTsm<RealType, RealType, Dim, slot_t, NSLOT, Cnt, Cnt, SpaceIndex>;
 using Geom = RecGeom<RealType, Dim>;
 
 static long kv(const std::vector<std::string>& ts, const std::string& key, long dflt){
@@ -101,7 +104,7 @@ static void dumpValues(Tree& tree){
     std::map<long, std::string> r;
     tree.applyToAllLeavesTarget([&](auto&& leafHeader, const long int* particleIndexes, auto, auto rhs){
         for(long p = 0 ; p < leafHeader.nbParticles ; ++p){
-            uint16_t c[NSLOT];
+            slot_t c[NSLOT];
             for(int s = 0 ; s < NSLOT ; ++s) c[s] = rhs[s][p];
             r[particleIndexes[p]] = hexOfCnt(c);
         }
@@ -111,6 +114,12 @@ static void dumpValues(Tree& tree){
     long srcStorage = 0;
     tree.applyToAllCellsSource([&](const long int, auto&&, auto, auto local){ if(local && sizeof((*local).get()) > 1) ++srcStorage; });
     if(srcStorage) std::cout << "X source cells own local expansions\n";
+}
+
+static void __attribute__((noinline)) poisonStack(){
+    volatile unsigned char buf[32768];
+    for(size_t k = 0 ; k < sizeof(buf) ; ++k) buf[k] = 0xAB;
+    asm volatile("" ::: "memory");
 }
 
 static void flushLog(){
@@ -144,7 +153,7 @@ int main(){
             std::cout << "\n";
         }
         else if(op == "tree"){
-            if(kv(ts, "D", 3) != Dim || kv(ts, "periodic", 0) != PERIODIC){ std::cout << "bad-config\n"; continue; }
+            if(kv(ts, "D", 3) != Dim || kv(ts, "periodic", 0) != PERIODIC || kv(ts, "slotbits", 16) != SLOTBITS){ std::cout << "bad-config\n"; continue; }
             cs.H = kv(ts, "H", 3);
             std::array<RealType, Dim> widths, center;
             for(long d = 0 ; d < Dim ; ++d){ widths[d] = 1; center[d] = 0.5; }
@@ -179,6 +188,29 @@ int main(){
             mock_gomp_configure(mc);
             std::unique_ptr<TbfOpenmpAlgorithmTsm<RealType, Kernel, SpaceIndex>> algo(new TbfOpenmpAlgorithmTsm<RealType, Kernel, SpaceIndex>(*cs.config, kv(ts, "upper", 2)));
             algo->execute(*cs.tree, int(kv(ts, "flags", 63)));
+            flushLog();
+        }
+#endif
+#if PERIODIC
+        else if(op == "exec" && ts.size() > 1 && ts[1] == "periodictsm"){
+            const long n = kv(ts, "n", 0);
+            using TopAlgo = TbfAlgorithmPeriodicTopTreeTsm<RealType, Kernel, Cnt, Cnt, SpaceIndex>;
+            std::unique_ptr<TopAlgo> top(new TopAlgo(*cs.config, n));
+            const auto iv = top->getRepetitionsIntervals();
+            std::cout << "PI " << top->getNbRepetitionsPerDim() << " " << top->getNbTotalRepetitions();
+            for(long d = 0 ; d < Dim ; ++d) std::cout << " " << iv.first[d] << ":" << iv.second[d];
+            std::cout << "\n";
+            auto stage = [&](int flags){
+                std::unique_ptr<TbfAlgorithmTsm<RealType, Kernel, SpaceIndex>> algo(new TbfAlgorithmTsm<RealType, Kernel, SpaceIndex>(*cs.config, TbfDefaultLastLevelPeriodic));
+                algo->execute(*cs.tree, flags);
+            };
+            stage(TbfAlgorithmUtils::TbfBottomToTopStages);
+            RecLog::topTree() = true;
+            poisonStack();
+            top->execute(*cs.tree);
+            RecLog::topTree() = false;
+            stage(TbfAlgorithmUtils::TbfTransferStages);
+            stage(TbfAlgorithmUtils::TbfTopToBottomStages);
             flushLog();
         }
 #endif
